@@ -10,12 +10,16 @@ class MWFamily : public IAlgoFamily {
     std::string name() const override { return "multigraph+weighted classes"; }
     bool handles(const std::string &k) const override {
         return k == "edgelist_multi" || k == "edgelist_weighted" || k == "dijkstra" || k == "reject_dijkstra" ||
-               k == "big_conv" || k == "dijkstra_adversarial";
+               k == "big_conv" || k == "dijkstra_adversarial" || k == "search_deep";
     }
     CaseResult run(const json &c, unsigned seed) override {
         const std::string k = c.at("k");
         CaseResult r;
-        if (k == "dijkstra_adversarial") {
+        if (k == "search_deep") {
+            deepDijkstra<DirectedWeightedGraph>(c, r);
+            if (r.ok)
+                deepDijkstra<UndirectedWeightedGraph>(c, r);
+        } else if (k == "dijkstra_adversarial") {
             if (c.at("dir").get<bool>())
                 adversarial<DirectedWeightedGraph>(c, r);
             else
@@ -315,6 +319,29 @@ class MWFamily : public IAlgoFamily {
                 return r.fail(std::string("Dijkstra threw on a valid input: ") + e.what());
             }
             r.records.push_back(rec);
+        }
+    }
+
+    // a path 0 - 1 - ... - n-1 with weights 1, 2, 1, 2, ...: the distances are known in closed form,
+    // whatever n is (n around and beyond 2^16; also run with a small stack, see lib/props_algo.py)
+    template <class W> void deepDijkstra(const json &c, CaseResult &r) {
+        const size_t n = c.at("n").get<size_t>();
+        W g(n);
+        for (VertexIndex v = 0; v + 1 < n; ++v)
+            g.addEdge(v, v + 1, 1.0 + (v % 2), true);
+        try {
+            auto res = algorithms::findGeodesicsDijkstra(g, 0);
+            if (res.first.size() != n || res.second.size() != n)
+                return r.fail("Dijkstra on a path of " + std::to_string(n) + " vertices: result sizes");
+            for (VertexIndex v = 0; v < n; ++v) {
+                double want = (v / 2) * 3.0 + (v % 2);
+                if (res.first[v] != want || (v > 0 && res.second[v] != v - 1))
+                    return r.fail("Dijkstra on a path of " + std::to_string(n) + " vertices: vertex " + std::to_string(v) +
+                                  " has distance " + std::to_string(res.first[v]) + " predecessor " +
+                                  std::to_string(res.second[v]) + ", expected " + std::to_string(want));
+            }
+        } catch (const std::exception &e) {
+            return r.fail("Dijkstra on a path of " + std::to_string(n) + " vertices threw: " + e.what());
         }
     }
 
